@@ -31,15 +31,29 @@ def plan(ctx):
                     continue
                 edge.append("proc apphostile sq=%d %s=%s" % (rng.choice([0, 1000]), key, fill[:n].hex()))
     seqs.append(("edge-lengths", edge))
-    return [("corpus", corpus(ID)), ("gen", seqs)]
+    # hostile span batches (announcing no spans) against the span queue: well-formed batches must still get through afterwards
+    from checks import C16
+    zero = [("sz%d" % i, C16.gen_zero_count(rng)) for i in range(15 if tier == "quick" else 400)]
+    return [("corpus", corpus(ID)), ("gen", seqs), ("spanq", zero)]
 
 
 def run(ctx, bname, seqs):
+    if bname == "spanq" or (seqs and seqs[0][1] and seqs[0][1][0].startswith("spanq ")):
+        from lib import vlib
+        return vlib.run_sequences(seqs, ctx["work"], tag=bname)
     return pc.run_proc(ctx, bname, seqs, PREFIX)
 
 
-tags = pc.tags_proc
-nontrivial = pc.nontrivial_proc
+def tags(r):
+    if r.ops and r.ops[0].startswith("spanq "):
+        return {"spanq:zero-count"}
+    return pc.tags_proc(r)
+
+
+def nontrivial(r):
+    if r.ops and r.ops[0].startswith("spanq "):
+        return any(o == "spanq batch 0" for o in r.ops)
+    return pc.nontrivial_proc(r)
 SHRINK = True
 PIN_PREFIX = 1
 
